@@ -53,7 +53,7 @@ def gen(tier, rng, shard, nshards):
                "precond": S.pick(rng, ["none", "none", "jacobi", "spd", "nystrom"]),
                "tol": float(S.pick(rng, [1e-12, 1e-10, 1e-8, 1e-6, 1e-4, 1e-2, 1e-1])),
                "max_iters": int(S.pick(rng, [0, 1, 2, 3, 5, 8, 15, 30, n, 2 * n, 1000])),
-               "via": S.pick(rng, ["cg", "cg", "cg", "inv"])}
+               "via": S.pick(rng, ["cg", "cg", "cg", "inv"]), "wide_rhs": bool(rng.random() < 0.15)}
 
 
 def build_problem(case):
@@ -67,13 +67,15 @@ def build_problem(case):
     shape = (n, ) if case["cols"] == 0 else (n, case["cols"])
     b = rng.standard_normal(shape) + (1j * rng.standard_normal(shape) if cplx else 0)
     b = b.astype(P.DT[dt])
+    if not cplx and case.get("wide_rhs"):
+        b = (b + 1j * rng.standard_normal(shape)).astype(np.complex128)  # complex right-hand side for a real operator
     b2 = b.reshape(n, -1).copy()
     for c, cs in enumerate(case["colspec"][:b2.shape[1]]):
         b2[:, c] *= 10.0**cs["scale_exp"]
         if cs["zero"]:
             b2[:, c] = 0
     b = b2.reshape(shape)
-    xstar = np.linalg.solve(M.astype(complex if cplx else float), b)
+    xstar = np.linalg.solve(M.astype(complex if (cplx or np.iscomplexobj(b)) else float), b)
     if case["x0"] == "none":
         x0 = None
     elif case["x0"] == "zero":
@@ -208,7 +210,7 @@ def run_case(ctx, case):
         ctx.inconclusive.append("loop-state tap saw no CG loop")
         return
     cplx = np.iscomplexobj(M)
-    wide = complex if cplx else float
+    wide = complex if (cplx or np.iscomplexobj(b)) else float
     Mw = M.astype(wide)
     b2 = b.reshape(n, -1).astype(wide)
     x2 = np.asarray(x).reshape(n, -1).astype(wide)
@@ -294,7 +296,7 @@ def run_case(ctx, case):
             opt = krylov_optima(Mw, Pd, b2[:, c], x02[:, c], kmax)
             worst = 0.0
             for k in range(1, min(kmax, len(opt) - 1) + 1):
-                eo = anorm(Mw.astype(CLD if cplx else LD), xs2[:, c].astype(CLD if cplx else LD) - opt[k])
+                eo = anorm(Mw.astype(CLD if wide is complex else LD), xs2[:, c].astype(CLD if wide is complex else LD) - opt[k])
                 if eo <= 1e-8 * e0:
                     break
                 # regimes fixed by construction of the input and calibrated on the unchanged code (1800 runs over all
